@@ -453,6 +453,26 @@ def _check_factory_returns(ctx, rep, rule="K5"):
             rep.holds(rule, f, con, "every path returns the nested closure", node=rets[0])
 
 
+def _is_flag(f, e) -> bool:
+    """the flag the factory was handed: the parameter itself, or a local of the factory bound once to the parameter defaulted with the
+    object's own flag (`self._on_para_eq_constraint if on_para_eq_constraint is None else on_para_eq_constraint`)"""
+    if e is None:
+        return False
+    if unparse(e) == "on_para_eq_constraint":
+        return True
+    if isinstance(e, ast.Name):
+        d = single_defs(f).get(e.id)
+        if isinstance(d, ast.IfExp) and {unparse(d.body), unparse(d.orelse)} in ({"on_para_eq_constraint", "self._on_para_eq_constraint"},
+                                                                                 {"on_para_eq_constraint", "self.on_para_eq_constraint"}):
+            t = d.test
+            if isinstance(t, ast.Compare) and len(t.ops) == 1 and unparse(t.left) == "on_para_eq_constraint" and const(t.comparators[0]) is None \
+                    and isinstance(t.comparators[0], ast.Constant):
+                none_is_body = isinstance(t.ops[0], (ast.Is, ast.Eq))
+                dflt = d.body if none_is_body else d.orelse
+                return unparse(dflt) != "on_para_eq_constraint"
+    return False
+
+
 def _check_closures(ctx, rep):
     _check_factory_returns(ctx, rep)
     ix = ctx.ix
@@ -471,7 +491,7 @@ def _check_closures(ctx, rep):
                 ok = False
                 why.append("generate_from_var is not applied to the closure's argument")
             fl = kwarg(g, "on_para_eq_constraint")
-            if fl is None or unparse(fl) != "on_para_eq_constraint":
+            if not _is_flag(f, fl):
                 ok = False
                 why.append("flag not forwarded to generate_from_var")
             mo = kwarg(g, "mode_proj_order")
@@ -499,7 +519,7 @@ def _check_closures(ctx, rep):
             c = calls[0]
             fl = kwarg(c, "on_para_eq_constraint") or (c.args[1] if len(c.args) > 1 else None)
             tgt = [unparse(t) for s in ast.walk(inner.node) if isinstance(s, ast.Assign) and s.value is c for t in s.targets]
-            ok = bool(c.args) and unparse(c.args[0]) == "var" and fl is not None and unparse(fl) == "on_para_eq_constraint" \
+            ok = bool(c.args) and unparse(c.args[0]) == "var" and _is_flag(f, fl) \
                 and (unparse(rets[0].value) in tgt or rets[0].value is c)
             why = "argument/flag not forwarded or result not returned"
     rep.check(ok, "K5", f, "_func_proj", "var -> self.calc_proj_physical_with_var(var, flag)", why, node=f.node)
